@@ -37,6 +37,9 @@ type Plan struct {
 	Boxes           []string
 	Sessions        []string
 	CheckDBEachStep bool
+	// Scripts are cfg files whose Script constant fixes one schedule (witnesses of the known deviations):
+	// each yields one behaviour, replayed before the simulated ones (by shard 0).
+	Scripts []string
 }
 
 func specDir() string { return filepath.Join(ev.Root(), "spec") }
@@ -119,7 +122,7 @@ func ReplayAll(run *ev.Run, plan Plan, traces []*Trace, source string) {
 	}
 	run.Add("drifted_traces", int64(drifts))
 	// a specification that no longer describes the code decides nothing: too much drift is a machinery failure
-	if len(traces) >= 10 && drifts*5 > len(traces) {
+	if (len(traces) >= 10 && drifts*5 > len(traces)) || (strings.Contains(source, ".script.") && drifts > 0) {
 		run.Machinery("%d of %d behaviours of %s left the specification (see coverage.samples): the specification and the code disagree on something this property does not judge; the run decides nothing", drifts, len(traces), source)
 	}
 }
@@ -184,6 +187,16 @@ func RunPlan(run *ev.Run, plan Plan, replay string) {
 		states += res.Distinct
 		transitions += res.Generated
 		run.Set("exhaustive_"+e.File, map[string]interface{}{"distinct_states": res.Distinct, "generated": res.Generated, "depth": res.Depth, "wall_s": res.Wall.Seconds()})
+	}
+	if sh, _ := ev.Shard(); sh == 0 {
+		for _, f := range plan.Scripts {
+			traces, res, err := Generate(SimCfg{File: f, Num: 1, Depth: 200}, 1)
+			if err != nil || len(traces) != 1 || res.Violated != "" || res.Error != "" {
+				run.Machinery("scripted behaviour %s: err=%v traces=%d violated=%q error=%q", f, err, len(traces), res.Violated, res.Error)
+				return
+			}
+			ReplayAll(run, plan, traces, f)
+		}
 	}
 	seed := ev.Seed()
 	shard, nshards := ev.Shard()
